@@ -72,6 +72,9 @@ func (l *genericFileSessionLoader) Load() (*Session, error) {
 
 func (l *genericFileSessionLoader) Store(s *Session) error {
 	dir, _ := filepath.Split(l.path)
+	if dir == "" {
+		dir = "." // bare file name: file is located in current directory
+	}
 	if !dry.FileExists(dir) {
 		return fmt.Errorf("%v: directory not found", dir)
 	}
